@@ -791,6 +791,8 @@ def stack_rule(F, G, rep, R, rule="S"):
                         args = tir.call_args(n)
                         for a in args:
                             a = strip(a)
+                            if a.get("k") == "Binary" and a.get("op") == "Add" and tir.place(a["l"]) not in params and tir.place(a["r"]) in params:
+                                a = dict(a, l=a["r"], r=a["l"])          # `1 + depth` is `depth + 1`
                             if a.get("k") == "Binary" and a.get("op") == "Add" and tir.place(a["l"]) in params and (tir.lit_int(a["r"]) or 0) > 0:
                                 pname = tir.place(a["l"])
                                 if upper_bounded_at(F, n, par, pname):
